@@ -867,6 +867,235 @@ def parser_tie(ctx, lib, viol, cov, repaired=True, workdir=None, crafted=()):
     return total
 
 
+# ----------------------------------------------------------------------------- P2: ReadSlice / ReadHyperslab / ChunkIterator vs Coq programs
+
+SLICE_OPS = {"slice": 0, "hyperslab": 1, "chunkiter": 2, "chunks": 3}
+_PREAD = re.compile(r", (\d+), (\d+)\)\s+= (-?\d+)")
+
+
+def strace_pread_trace(argv, stdin, inject=None, timeout=120, pathfilter=None):
+    """argv under strace: the (offset, length) of every pread64 (on pathfilter) in order; inject = (spec, when) tampers
+    with one of them.  The Go runtime itself preads cgroup files at start-up: hence the path filter."""
+    d = vlib.scratch()
+    log = os.path.join(d, "tr-%d-%d.log" % (os.getpid(), next(_ctr)))
+    cmd = ["strace", "-f", "-qq", "-o", log, "-e", "trace=pread64"]
+    if pathfilter:
+        cmd += ["-P", pathfilter]
+    if inject:
+        cmd += ["-e", "inject=pread64:%s:when=%d" % inject]
+    p = subprocess.run(cmd + argv, input=stdin, capture_output=True, text=True, timeout=timeout)
+    trace, injected = [], False
+    try:
+        for l in open(log, errors="replace"):
+            if "pread64" not in l or "unfinished" in l:
+                continue
+            m = _PREAD.search(l)
+            if m:
+                trace.append((int(m.group(2)), int(m.group(1))))
+            if "(INJECTED)" in l:
+                injected = True
+        os.remove(log)
+    except OSError:
+        pass
+    return p, trace, injected
+
+
+def slice_selections(t, rng, quick):
+    """(op, start, count, stride, block) for one dataset: valid ones of every path, an empty one, one out of bounds"""
+    dims = t["dims"]
+    n = len(dims)
+    sels = []
+    full = ([0] * n, list(dims))
+    sels.append(("slice",) + full + (None, None))
+    st = [rng.randrange(d) for d in dims]
+    cn = [rng.randrange(1, d - s + 1) for d, s in zip(dims, st)]
+    sels.append(("slice", st, cn, None, None))
+    if n >= 2:                                   # one row: a contiguous run of a multi-dimensional dataset
+        r = [rng.randrange(d) for d in dims[:-1]] + [0]
+        sels.append(("slice", r, [1] * (n - 1) + [dims[-1]], None, None))
+    # strided / blocked
+    stride = [2] * n
+    cnt = [max(1, (d + 1) // 2) for d in dims]
+    sels.append(("hyperslab", [0] * n, cnt, stride, None))
+    if all(d >= 5 for d in dims):
+        sels.append(("hyperslab", [1] * n, [max(1, (d - 1) // 3) for d in dims], [3] * n, [2] * n))
+    sels.append(("hyperslab", st, cn, None, None))
+    sels.append(("slice", [0] * n, [0] * n, None, None))                        # empty selection
+    sels.append(("slice", [0] * n, [d + 1 for d in dims], None, None))          # out of bounds: refused before any data I/O
+    sels.append(("hyperslab", [0] * n, list(dims), [1] * n, [2] * n))           # last block out of bounds
+    if t.get("layout") == 2:
+        sels.append(("chunkiter", [], [], None, None))
+        sels.append(("chunks", [], [], None, None))
+    if quick and len(sels) > 6:
+        keep = [sels[0], sels[1], sels[3]] + [x for x in sels if x[0] in ("chunkiter", "chunks")]
+        rest = [x for x in sels if x not in keep]
+        keep += rng.sample(rest, min(len(rest), 2))
+        sels = keep
+    return sels
+
+
+def coq_nlist(l):
+    return "[" + "; ".join(str(x) for x in l) + "]"
+
+
+def coq_sel(st, cn, sd, bk):
+    o = lambda x: "None" if x is None else "(Some %s)" % coq_nlist(x)
+    return "{| s_start := %s; s_count := %s; s_stride := %s; s_block := %s |}" % (coq_nlist(st), coq_nlist(cn), o(sd), o(bk))
+
+
+def slice_tie(ctx, lib, viol, cov, workdir):
+    """Model/IOProgSlice.v vs Dataset.ReadSlice / ReadHyperslab / ChunkIterator (through *os.File): same image, same cut
+    (in process, truncated copies) or same failing pread64 (strace): class, the sequence of (offset, length) of the I/O
+    calls made, and the value"""
+    mpath = os.path.join(vlib.COQ, "theories", "Model", "IOProgSliceTie.v")
+    if not os.path.exists(mpath) or not strace_ok():
+        cov["slice_tie"] = "Model/IOProgSliceTie.v or strace not present"
+        return 0
+    H, rng, quick = ctx.harness, ctx.rng, ctx.tier == "quick"
+    files = [(t, p) for t, p, _ in lib if os.path.getsize(p) <= 20000]
+    if quick:       # every image is a string literal coqc has to elaborate (about 0.15 s per KiB)
+        files = [f for f in files if f[0] in ("sb2-basic", "sb0-basic", "sb2-chunked", "sb2-filtered", "sb0-nested-chunked", "sb2-sessions")]
+    td = os.path.join(vlib.REPO, "testdata")
+    for n in ([] if quick else ["test_3d_chunked.h5", "gzip_test.h5", "v0.h5", "v2.h5", "v3.h5"]):
+        if os.path.exists(os.path.join(td, n)) and os.path.getsize(os.path.join(td, n)) <= 60000:
+            files.append(("ref:" + n, os.path.join(td, n)))
+    combos = []
+    for tag, path in files:
+        try:
+            p = subprocess.run([H, "c17slicetargets", path], capture_output=True, text=True, timeout=60)
+            tg = json.loads(p.stdout)
+        except Exception:
+            continue
+        tg = [t for t in tg if all(0 < d <= 64 for d in t["dims"]) and len(t["dims"]) <= 3]
+        if quick and len(tg) > 2:
+            tg = rng.sample(tg, 2)
+        for t in tg:
+            for sel in slice_selections(t, rng, quick):
+                combos.append((tag, path, t, sel))
+    if quick and len(combos) > 26:
+        fixed = [c for c in combos if c[3][0] in ("chunkiter", "chunks")][:4]
+        combos = fixed + rng.sample([c for c in combos if c not in fixed], 26 - len(fixed))
+    maxk = 6 if quick else 40
+    ncuts = 8 if quick else 60
+
+    def case_json(t, sel, **kw):
+        op, st, cn, sd, bk = sel
+        return json.dumps(dict(addr=t["addr"], op=op, start=st, count=cn, stride=sd, block=bk, **kw))
+
+    def intact_one(c):
+        tag, path, t, sel = c
+        p, tr, _ = strace_pread_trace([H, "c17slice", path], case_json(t, sel), pathfilter=path)
+        return c, (json.loads(p.stdout) if p.returncode == 0 and p.stdout.strip() else None), tr
+    jobs, recs = [], {}
+    with cf.ThreadPoolExecutor(WORKERS) as ex:
+        for ci, (c, r, tr) in enumerate(ex.map(intact_one, combos)):
+            if r is None:
+                continue
+            tag, path, t, sel = c
+            size = os.path.getsize(path)
+            recs[ci] = dict(c=c, intact=r, trace=tr, rows=[((-1, -1, 0), r, tr)])
+            n = len(tr)
+            ks = list(range(1, n + 1)) if n <= maxk else sorted(set([1, 2, n, n - 1] + [rng.randrange(1, n + 1) for _ in range(maxk - 4)]))
+            for k in ks:
+                for code, spec in ((0, "error=EIO"), (1, "retval=0")):
+                    jobs.append((ci, k, code, spec))
+            cuts = set([0, 48, size - 1] + [rng.randrange(size) for _ in range(ncuts // 2)])
+            for off, ln in tr[-(ncuts // 2):] + tr[:2]:
+                cuts.update([off, off + ln - 1, off + ln])
+            cuts = sorted(x for x in cuts if 0 <= x < size)
+            recs[ci]["cuts"] = cuts if len(cuts) <= ncuts else sorted(rng.sample(cuts, ncuts))
+
+    def fault_one(j):
+        ci, k, code, spec = j
+        tag, path, t, sel = recs[ci]["c"]
+        p, tr, inj = strace_pread_trace([H, "c17slice", path], case_json(t, sel), inject=(spec, k), pathfilter=path)
+        if not inj:
+            return j, None, tr
+        if p.returncode != 0 or not p.stdout.strip():
+            return j, dict(**{"class": 2}, err="process died rc=%d %s" % (p.returncode, p.stderr[-200:])), tr
+        return j, json.loads(p.stdout), tr
+
+    def cuts_one(ci):
+        tag, path, t, sel = recs[ci]["c"]
+        p = subprocess.run([H, "c17slice", path], input=case_json(t, sel, cuts=recs[ci]["cuts"], dir=workdir), capture_output=True, text=True, timeout=300)
+        return ci, (json.loads(p.stdout)["res"] if p.returncode == 0 and p.stdout.strip() else None)
+    stats = collections.Counter()
+    with cf.ThreadPoolExecutor(WORKERS) as ex:
+        for (ci, k, code, spec), r, tr in ex.map(fault_one, jobs):
+            if r is None:
+                stats["not-injected"] += 1
+                continue
+            recs[ci]["rows"].append(((-1, k - 1, code), r, tr))
+        for ci, res in ex.map(cuts_one, list(recs)):
+            if res is None:
+                stats["cuts-run-failed"] += 1
+                continue
+            for cut, r in zip(recs[ci]["cuts"], res):
+                recs[ci]["rows"].append(((cut, -1, 0), r, None))
+    # specification on the implementation's outputs + the cases for coqc
+    imgs, vparts, labels, total = {}, ["From HV Require Import Base.Prelude Base.Outcome Base.Bytes Model.IOProg Model.IOProgSlice Model.IOProgSliceTie.\n"], [], 0
+    for ci, rec in sorted(recs.items()):
+        tag, path, t, sel = rec["c"]
+        op = sel[0]
+        intact = rec["intact"]
+        desc = "%s %s@%d %s" % (tag, op, t["addr"], json.dumps(sel[1:]))
+        for (cut, k, code), r, tr in rec["rows"]:
+            stats["%s:%s" % (op, ("ok", "err", "panic")[r["class"]])] += 1
+            if r["class"] == 2 or (r["class"] == 0 and (intact["class"] != 0 or r.get("v") != intact.get("v"))):
+                viol.append(dict(what="%s: cut=%d failing pread64 #%d kind%d returns %s" % (desc, cut, k + 1, code, "a panic" if r["class"] == 2 else "a different value"),
+                                 failing_input=dict(kind="slice", file=path, target=t, sel=list(sel), cut=cut, fault=k, fault_code=code),
+                                 intact=intact, observed=r))
+        if path not in imgs:
+            imgs[path] = "simg%d" % len(imgs)
+            vparts.append('Definition %s : bytes := unhex "%s".\n' % (imgs[path], open(path, "rb").read().hex()))
+        name = "sl_%d" % ci
+
+        def cv(r):
+            if r["class"] != 0 or "v" not in r or op == "chunks":
+                return "None"
+            return "(Some (%s))" % coq_val(r["v"])
+
+        def ctr(tr):
+            if tr is None:
+                return "None"
+            acc = 7
+            for o, l in tr:
+                acc = (acc * 1000003 + o * 4099 + l + 1) % (1 << 64)
+            return "(Some (%d, %d))" % (len(tr), acc)
+        vparts.append("Definition %s : list (Z * Z * N * N * option (N * N) * option val) := [%s].\n" % (
+            name, ";\n ".join("((%d)%%Z, (%d)%%Z, %d, %d, %s, %s)" % (cut, k, code, r["class"], ctr(tr), cv(r)) for (cut, k, code), r, tr in rec["rows"])))
+        vparts.append("Definition bad_%s := Eval vm_compute in mismatches (slice_tie_ok %d %s %d %s) %s.\n" % (
+            name, SLICE_OPS[op], imgs[path], t["addr"], coq_sel(sel[1], sel[2], sel[3], sel[4]), name))
+        labels.append(("bad_" + name, rec, desc))
+        total += len(rec["rows"])
+    if not labels:
+        cov["slice_tie"] = "no usable dataset"
+        return 0
+    vparts.append("Definition ALLBADS := Eval vm_compute in [%s].\nPrint ALLBADS.\n" % ";".join("N.of_nat (List.length %s)" % l[0] for l in labels))
+    for l in labels:
+        vparts.append("Print %s.\n" % l[0])
+    out = vlib.coq_eval("".join(vparts), "c17slices")
+    counts = vlib.parse_nlist(out, "ALLBADS")
+    nbad = 0
+    for (lab, rec, desc), n in zip(labels, counts):
+        if n == 0:
+            continue
+        nbad += n
+        bad = vlib.parse_nlist(out, lab)
+        (cut, k, code), r, tr = rec["rows"][bad[0]]
+        tag, path, t, sel = rec["c"]
+        viol.append(dict(what="%s: Coq program and the Go call disagree at cut=%d failing pread64 #%d kind%d (Go class %d, %s I/O calls); %d of %d cases" % (
+                             desc, cut, k + 1, code, r["class"], "?" if tr is None else len(tr), n, len(rec["rows"])),
+                         case=dict(kind="slice", file=path, target=t, sel=list(sel), cut=cut, fault=k, fault_code=code, go_trace=tr), impl=r, nofail=True,
+                         correspondence="Model.IOProgSlice vs Go; theorems C17_read_slice_damage / C17_read_hyperslab_damage / C17_chunk_iterator_damage"))
+    cov["slice_tie"] = dict(cases=total, combos=len(labels), files=sorted(set(r["c"][0] for r in recs.values())),
+                            ops=dict(collections.Counter(r["c"][3][0] for r in recs.values())),
+                            layouts=dict(collections.Counter(str(r["c"][2].get("layout")) for r in recs.values())),
+                            outcomes=dict(stats), model_disagreements=nbad,
+                            sample=[dict(file=r["c"][0], sel=list(r["c"][3]), io_calls=len(r["trace"])) for r in list(recs.values())[:3]])
+    return total
+
+
 TIE_REF = ["v0.h5", "vlen_strings.h5"]
 TIE_REF_MORE = ["with_attributes.h5", "compound_test.h5", "test_3d_chunked.h5", "string_test.h5", "mathcad_document.h5", "with_groups.h5",
                 "test_attr_int32.h5", "reference_traverse.h5"]
@@ -945,6 +1174,9 @@ def run(ctx):
     t = time.time()
     npar = parser_tie(ctx, lib, viol, cov, repaired, workdir, crafted)
     timings["parser_tie_s"] = round(time.time() - t, 1)
+    t = time.time()
+    npar += slice_tie(ctx, lib, viol, cov, workdir)
+    timings["slice_tie_s"] = round(time.time() - t, 1)
     # known findings
     listed = {k["id"]: k for k in vlib.known_findings("C17")}
     keep = []
